@@ -360,9 +360,19 @@ func (c *Conn) Stats() Stats {
 
 // ClientConn is the client's net.Conn over the same duplex.
 type ClientConn struct {
-	C   *Conn
-	Pos int // offset in the server output already consumed
+	C        *Conn
+	Pos      int  // offset in the server output already consumed
+	NonBlock bool // return a temporary timeout error instead of blocking when no data is available
 }
+
+type wouldBlock struct{}
+
+func (wouldBlock) Error() string   { return "tr: no data available (non-blocking read)" }
+func (wouldBlock) Timeout() bool   { return true }
+func (wouldBlock) Temporary() bool { return true }
+
+// ErrWouldBlock is returned by non-blocking client reads.
+var ErrWouldBlock net.Error = wouldBlock{}
 
 func (cc *ClientConn) Read(p []byte) (int, error) {
 	c := cc.C
@@ -371,6 +381,9 @@ func (cc *ClientConn) Read(p []byte) (int, error) {
 	for cc.Pos >= len(c.out) {
 		if c.closed || c.failed {
 			return 0, io.EOF
+		}
+		if cc.NonBlock {
+			return 0, ErrWouldBlock
 		}
 		c.cond.Wait()
 	}
